@@ -152,6 +152,16 @@ def run(prop, tier, seed, work):
     for i in range(nrand):
         ur = U.rand_universe(rng, nstructs=10 if quick else 16)
         batches.append(Batch("random%d" % i, ur, random_cases(prop, ur, tier, rng, 150 if quick else 1200)))
+    # a wide struct (more than 256 fields, offsets beyond 2 KiB, holder at the far end): few values, it is the width that matters
+    wk = [U.T("i32"), U.T("string"), U.T("i64", True), U.T("bool"), U.T("double"), U.L(U.T("i16")), U.T("i8"), U.T("binary"), U.T("i32", True), U.T("i16")]
+    wd = {"Wide": U.struct([U.field(2 * j + 1, "optional" if (wk[j % 10].get("ptr") or j % 10 == 5) else ("required" if j % 7 == 0 else "default"), wk[j % 10])
+                            for j in range(270)], unk=True)}
+    U.with_defaults(wd)
+    wt = {"k": "struct", "ptr": False, "s": "Wide"}
+    wvals = [("base", U.base_value(wt, wd, 2, 3)), ("zero", U.zero_struct("Wide", wd)), ("b2", U.base_value(wt, wd, 2, 8, 1)),
+             ("unk", {"f": U.base_value(wt, wd, 2, 5)["f"], "unk": U.unknown_bytes([0, 1, 3, 7])})]
+    batches.append(Batch("wide", wd, [{"sid": "%s-Wide-%s" % (prop, lbl), "prop": prop, "vals": [v], "steps": steps_for(prop, "Wide", True),
+                                       "tags": struct_tags("Wide", v, wd), "dkey": "%s-Wide-%s" % (prop, lbl)} for lbl, v in wvals]))
     if prop == "C16":
         batches.extend(c16_extra(work, res, uf, rng, quick))
     suite.run_batches(res, work, batches, want_props={prop, "C13"} if prop == "C01" else None)
